@@ -48,6 +48,32 @@ pub struct Stats {
     pub by_tier: BTreeMap<String, u64>,
 }
 
+impl Stats {
+    pub fn merge(&mut self, o: Stats) {
+        self.runs += o.runs;
+        self.sim_time_ns += o.sim_time_ns;
+        self.events += o.events;
+        self.spawns += o.spawns;
+        self.nontrivial += o.nontrivial;
+        self.signatures.extend(o.signatures);
+        for (k, v) in o.fault_fired {
+            *self.fault_fired.entry(k).or_insert(0) += v;
+        }
+        for (k, v) in o.probes {
+            *self.probes.entry(k).or_insert(0) += v;
+        }
+        for (k, v) in o.lanes {
+            *self.lanes.entry(k).or_insert(0) += v;
+        }
+        for (k, v) in o.by_tier {
+            *self.by_tier.entry(k).or_insert(0) += v;
+        }
+        if self.samples.len() < 3 {
+            self.samples.extend(o.samples);
+        }
+    }
+}
+
 pub struct Outcome {
     pub idx: usize,
     pub violations: Vec<Violation>,
